@@ -1,12 +1,15 @@
 (* C05/Spec.v - the abstract specification of the host call/return protocol.
    No cells, no ScriptPointer, no registration: the host's view is
-     - the set of calls whose thread is alive,
-     - a map  call -> result  that gets its entry when the thread ends (Some v for `end v`,
-       None for an end without value) and never changes afterwards; a deleted thread never
-       gets an entry,
-     - records = the argument list plus, optionally, a result slot that NAMES a call (or is
+     - the set of threads that are alive (the host-started thread of a call and the sub-threads
+       it started with `local.r = thread sub`),
+     - a map  thread -> result  that gets its entry when the thread ends: a value for `end v`,
+       empty for an end without value and for a thread that is deleted before its end or dies
+       in a Reset, and "forwarded to c" for `end local.r` while local.r is the still pending
+       result of the thread c: from then on the thread's result IS c's result - when c ends,
+       every entry that was forwarded to c becomes c's entry,
+     - records = the argument list plus, optionally, a result slot that NAMES a thread (or is
        empty after its value was moved out); what a slot shows is looked up in the map at
-       the time of the observation: the value once the call has its entry, "pending" before.
+       the time of the observation: the value once there is one, "pending" before.
    The parameters of the label are the prefix of the arguments padded with NIL (Model.bind
    is compared with [spec_bind] in the proofs).  When the threads run is the scheduler of
    Model.v (the due-time specification of unit C06), instantiated with this store. *)
@@ -16,17 +19,21 @@ Import ListNotations.
 Local Open Scope N_scope.
 
 Inductive sref := SCall (t : N) | SNil.
+Inductive entry := RVal (v : option dval) | RFwd (c : N).
 
 Record srec := mkSRec { sargs : list dval; sslot : option sref }.
 
 Record store := mkStore {
-  alive : list N;                         (* calls whose thread is alive *)
-  done : list (N * option dval);          (* call -> result, once the thread has ended *)
+  alive : list N;                         (* threads that are alive *)
+  done : list (N * entry);                (* thread -> result, once the thread has ended *)
+  slocs : list (N * N);                   (* alive thread -> the sub-thread its local.r names *)
+  stcall : list (N * N);                  (* thread -> its host call *)
   srecs : list (N * srec);
   snrec : N;
-  sncall : N }.
+  sncall : N;
+  stmps : list N }.                       (* calls / `thread` commands in progress: the thread each waits for *)
 
-Definition store_init : store := mkStore [] [] [] 0 0.
+Definition store_init : store := mkStore [] [] [] [] [] 0 0 [].
 
 (* parameter i (0-based) of a label declaring np parameters *)
 Definition spec_bind (np : nat) (args : list dval) : list dval :=
@@ -35,40 +42,92 @@ Definition spec_bind (np : nat) (args : list dval) : list dval :=
 Definition memN (t : N) (l : list N) : bool := existsb (N.eqb t) l.
 Definition delN (t : N) (l : list N) : list N := filter (fun x => negb (x =? t)) l.
 
-Definition s_end (t : N) (r : option dval) (s : store) : store :=
-  if memN t (alive s)
-  then mkStore (delN t (alive s)) ((t, r) :: done s) (srecs s) (snrec s) (sncall s)
+Definition subst (t : N) (e : entry) (x : N * entry) : N * entry :=
+  match snd x with
+  | RFwd c => if c =? t then (fst x, e) else x
+  | RVal _ => x
+  end.
+
+Definition end_entry (s : store) (t : N) (e : endv) : entry :=
+  match e with
+  | EVal d => RVal (Some d)
+  | ENone => RVal None
+  | ELocal =>
+      match lookup t (slocs s) with
+      | Some c => match lookup c (done s) with Some x => x | None => RFwd c end
+      | None => RVal (Some DNil)
+      end
+  end.
+
+Definition s_end (t : N) (e : endv) (s : store) : store :=
+  if memN t (alive s) then
+    let ent := end_entry s t e in
+    mkStore (delN t (alive s)) ((t, ent) :: map (subst t ent) (done s)) (del t (slocs s)) (stcall s)
+            (srecs s) (snrec s) (sncall s) (stmps s)
   else s.
 
-Definition s_kill (t : N) (s : store) : store :=
-  mkStore (delN t (alive s)) (done s) (srecs s) (snrec s) (sncall s).
+(* a deleted thread ends without a value *)
+Definition s_kill (t : N) (s : store) : store := s_end t ENone s.
+
+Definition s_thread_begin (call : N) (s : store) : store * N :=
+  let t := sncall s in
+  (mkStore (alive s ++ [t]) (done s) (slocs s) (stcall s ++ [(t, call)]) (srecs s) (snrec s) (t + 1)
+           (t :: stmps s), t).
 
 Definition s_begin (lbl : bool) (s : store) : store * N :=
-  let t := sncall s in
-  (mkStore (if lbl then alive s ++ [t] else alive s) (done s) (srecs s) (snrec s) (t + 1), t).
+  if lbl then s_thread_begin (sncall s) s
+  else (mkStore (alive s) (done s) (slocs s) (stcall s) (srecs s) (snrec s) (sncall s + 1) (stmps s),
+        sncall s).
 
-(* the record of call t: a result slot unless the thread ended inside the call without a value *)
+Definition s_call_of (t : N) (s : store) : N :=
+  match lookup t (stcall s) with Some c => c | None => t end.
+
+Definition s_spawn (parent : N) (s : store) : store * N := s_thread_begin (s_call_of parent s) s.
+
+Definition s_spawned (parent child : N) (s : store) : store :=
+  match stmps s with
+  | u :: rest =>
+      if (parent <? u) && match lookup parent (slocs s) with None => true | Some _ => false end then
+        mkStore (alive s) (done s) (slocs s ++ [(parent, u)]) (stcall s) (srecs s) (snrec s) (sncall s) rest
+      else
+        mkStore (alive s) (done s) (slocs s) (stcall s) (srecs s) (snrec s) (sncall s) rest
+  | [] => s
+  end.
+
+(* the record of the call in progress: a result slot unless its thread ended inside the call
+   without a value *)
 Definition s_finish (found : bool) (t : N) (args : list dval) (s : store) : store :=
-  let slot := if found then
-                match lookup t (done s) with
-                | Some None | Some (Some DNil) => None
-                | _ => Some (SCall t)
-                end
-              else None in
-  mkStore (alive s) (done s) (srecs s ++ [(snrec s, mkSRec args slot)]) (snrec s + 1) (sncall s).
+  if found then
+    match stmps s with
+    | u :: rest =>
+        let slot := match lookup u (done s) with
+                    | Some (RVal None) | Some (RVal (Some DNil)) => None
+                    | _ => Some (SCall u)
+                    end in
+        mkStore (alive s) (done s) (slocs s) (stcall s) (srecs s ++ [(snrec s, mkSRec args slot)]) (snrec s + 1)
+                (sncall s) rest
+    | [] =>
+        mkStore (alive s) (done s) (slocs s) (stcall s) (srecs s ++ [(snrec s, mkSRec args None)]) (snrec s + 1)
+                (sncall s) []
+    end
+  else
+    mkStore (alive s) (done s) (slocs s) (stcall s) (srecs s ++ [(snrec s, mkSRec args None)]) (snrec s + 1)
+            (sncall s) (stmps s).
 
 Definition s_alive (t : N) (s : store) : bool := memN t (alive s).
 
+Definition with_srecs (s : store) (l : list (N * srec)) (n : N) : store :=
+  mkStore (alive s) (done s) (slocs s) (stcall s) l n (sncall s) (stmps s).
+
 Definition s_copy (r : N) (s : store) : store :=
   match lookup r (srecs s) with
-  | Some x => mkStore (alive s) (done s) (srecs s ++ [(snrec s, x)]) (snrec s + 1) (sncall s)
+  | Some x => with_srecs s (srecs s ++ [(snrec s, x)]) (snrec s + 1)
   | None => s
   end.
 
 Definition s_same (r : N) (s : store) : store := s.
 
-Definition s_destroy (r : N) (s : store) : store :=
-  mkStore (alive s) (done s) (del r (srecs s)) (snrec s) (sncall s).
+Definition s_destroy (r : N) (s : store) : store := with_srecs s (del r (srecs s)) (snrec s).
 
 Definition sslot_of (r : N) (s : store) : option sref :=
   match lookup r (srecs s) with
@@ -85,29 +144,28 @@ Definition set_slot (r : N) (v : sref) (l : list (N * srec)) : list (N * srec) :
 Definition s_assign (r1 r2 : N) (s : store) : store :=
   if r1 =? r2 then s else
   match sslot_of r1 s, sslot_of r2 s with
-  | Some _, Some b => mkStore (alive s) (done s) (set_slot r1 b (srecs s)) (snrec s) (sncall s)
+  | Some _, Some b => with_srecs s (set_slot r1 b (srecs s)) (snrec s)
   | _, _ => s
   end.
 
 Definition s_massign (r1 r2 : N) (s : store) : store :=
   if r1 =? r2 then s else
   match sslot_of r1 s, sslot_of r2 s with
-  | Some _, Some b =>
-      mkStore (alive s) (done s) (set_slot r2 SNil (set_slot r1 b (srecs s))) (snrec s) (sncall s)
+  | Some _, Some b => with_srecs s (set_slot r2 SNil (set_slot r1 b (srecs s))) (snrec s)
   | _, _ => s
   end.
 
-Definition s_reset (s : store) : store :=
-  mkStore [] (done s) (srecs s) (snrec s) (sncall s).
+(* Reset: every alive thread is killed *)
+Definition s_reset (s : store) : store := fold_left (fun s t => s_kill t s) (alive s) s.
 
 Definition sref_tok (s : store) (r : sref) : tok :=
   match r with
   | SNil => TD DNil
   | SCall t =>
       match lookup t (done s) with
-      | Some (Some d) => TD d
-      | Some None => TD DNil
-      | None => TPend
+      | Some (RVal (Some d)) => TD d
+      | Some (RVal None) => TD DNil
+      | Some (RFwd _) | None => TPend
       end
   end.
 
@@ -115,8 +173,8 @@ Definition srec_toks (s : store) (r : srec) : list tok :=
   map TD (sargs r) ++ match sslot r with Some x => [sref_tok s x] | None => [] end.
 
 Definition s_obs (s : store) : list (N * list tok) * nat * bool :=
-  (map (fun x => (fst x, srec_toks s (snd x))) (srecs s), length (alive s), false).
+  (map (fun x => (fst x, srec_toks s (snd x))) (srecs s), instances (alive s) (stcall s), false).
 
 Definition spec_run (ops : list op) : list obs :=
-  grun store store_init s_end s_kill s_begin s_finish s_alive
+  grun store store_init s_end s_kill s_kill s_spawn s_spawned s_begin s_finish s_alive
        s_copy s_same s_same s_destroy s_assign s_massign s_reset s_obs ops.
